@@ -422,3 +422,42 @@ crate::proof!(sgroup_any3, 8, { run_stream_group(3, false, 1, &[ANY, ANY, ANY]) 
 crate::proof!(fgroup_micro2, 8, { run_future_group(2, false, &[INS, POLL]) });
 crate::proof!(fgroup_micro3, 8, { run_future_group(3, false, &[INS, POLL, POLL]) });
 crate::proof!(fgroup_micro4, 8, { run_future_group(4, false, &[INS, INS, POLL, POLL]) });
+
+// feasibility probes (not registered in harnesses.json)
+#[cfg(kani)]
+#[kani::proof]
+#[kani::unwind(8)]
+pub fn probe_group_insert_only() {
+    reset(G);
+    let mut g = FutureGroup::<Fut>::new();
+    let k = g.insert(Fut::new(0));
+    assert!(g.contains_key(k));
+    assert!(g.len() == 1);
+    core::mem::forget(g);
+}
+
+#[cfg(kani)]
+#[kani::proof]
+#[kani::unwind(8)]
+pub fn probe_btreeset_only() {
+    let mut s = alloc::collections::BTreeSet::<usize>::new();
+    s.insert(3);
+    assert!(s.contains(&3));
+    let mut n = 0;
+    for _k in s.iter().cloned() {
+        n += 1;
+    }
+    assert!(n == 1);
+    s.remove(&3);
+    assert!(s.is_empty());
+}
+
+#[cfg(kani)]
+#[kani::proof]
+#[kani::unwind(8)]
+pub fn probe_slab_only() {
+    let mut s = slab::Slab::<u8>::new();
+    let k = s.insert(7);
+    assert!(s.len() == 1);
+    assert!(s.remove(k) == 7);
+}
